@@ -31,6 +31,10 @@ REPLAYS = os.path.join(VERIF, "replays")
 def _env() -> Dict[str, str]:
     env = dict(os.environ)
     env["PYTHONPATH"] = VERIF
+    # experiments only (seeded changes in a scratch worktree): VERIF_SRC=<worktree>/src shadows the editable
+    # install of /repo; the registered commands never set it
+    if os.environ.get("VERIF_SRC"):
+        env["PYTHONPATH"] = os.environ["VERIF_SRC"] + os.pathsep + VERIF
     env["PYTHONHASHSEED"] = "0"
     env["PYTHONDONTWRITEBYTECODE"] = "1"
     env.pop("PURESNMP_VERIF", None)
